@@ -17,7 +17,7 @@ use std::sync::{Arc, Mutex};
 pub mod prelude {
     pub use crate::{
         FromParallelIterator, IndexedParallelIterator, IntoParallelIterator, IntoParallelRefIterator, IntoParallelRefMutIterator, ParallelBridge, ParallelIterator,
-        ParallelSlice, ParallelSliceMut,
+        ParallelExtend, ParallelSlice, ParallelSliceMut,
     };
 }
 
@@ -252,14 +252,41 @@ pub struct Chunk {
     pub index: usize,
 }
 
+/// Regions larger than this use the coarse partition alphabet (see `plan_region`).
+pub const COARSE_FROM: usize = 256;
+
 fn plan_region(n: usize, ordered: bool) -> Vec<Chunk> {
     let region = next_region(n);
     // partition: cut after item i? A bridged (`par_bridge`) iterator has no contiguous chunks: workers pull the
     // items one at a time, so every item is a task of its own and only the order / worker choices remain.
+    // Regions with more than COARSE_FROM items use a coarse partition alphabet: cuts are offered only at a menu of
+    // positions (after the first and second item, at the quarters, before the last two items), and a bridged iterator
+    // is pulled in blocks delimited by the same menu. Every schedule of the coarse alphabet is a schedule of the fine
+    // one (a sub-space, reported as such by the harness); it keeps one-deviation exploration of regions with
+    // thousands of items affordable.
+    let coarse: Option<Vec<usize>> = if n > COARSE_FROM {
+        let mut m = vec![1, 2, n / 4, n / 2, n - n / 4, n - 2, n - 1];
+        m.sort_unstable();
+        m.dedup();
+        Some(m)
+    } else {
+        None
+    };
     let mut bounds = vec![0usize];
-    for i in 0..n.saturating_sub(1) {
-        if !ordered || choose(region, "cut", 2) == 1 {
-            bounds.push(i + 1);
+    match &coarse {
+        None => {
+            for i in 0..n.saturating_sub(1) {
+                if !ordered || choose(region, "cut", 2) == 1 {
+                    bounds.push(i + 1);
+                }
+            }
+        }
+        Some(menu) => {
+            for &pos in menu {
+                if !ordered || choose(region, "cut", 2) == 1 {
+                    bounds.push(pos);
+                }
+            }
         }
     }
     bounds.push(n);
@@ -324,8 +351,135 @@ pub trait ParallelIterator: Sized {
 }
 
 pub trait IndexedParallelIterator {}
-pub trait ParallelSlice {}
-pub trait ParallelSliceMut {}
+/// `par_chunks`, `par_chunks_exact`, `par_windows` of shared slices.
+pub trait ParallelSlice<T: Sync> {
+    fn as_parallel_slice(&self) -> &[T];
+    fn par_chunks<'a>(&'a self, size: usize) -> ParIter<'a, &'a [T]>
+    where
+        T: 'a,
+    {
+        ParIter::from_items(self.as_parallel_slice().chunks(size))
+    }
+    fn par_chunks_exact<'a>(&'a self, size: usize) -> ParIter<'a, &'a [T]>
+    where
+        T: 'a,
+    {
+        ParIter::from_items(self.as_parallel_slice().chunks_exact(size))
+    }
+    fn par_windows<'a>(&'a self, size: usize) -> ParIter<'a, &'a [T]>
+    where
+        T: 'a,
+    {
+        ParIter::from_items(self.as_parallel_slice().windows(size))
+    }
+}
+
+impl<T: Sync> ParallelSlice<T> for [T] {
+    fn as_parallel_slice(&self) -> &[T] {
+        self
+    }
+}
+
+/// After a stable sort: an *unstable* parallel sort may leave elements that compare equal in any order. The model
+/// offers one alternative outcome (every run of equal elements reversed) as a choice point, so that code relying on
+/// the order of ties is one deviation away from the default schedule.
+fn unstable_ties<T>(v: &mut [T], same: impl Fn(&T, &T) -> bool) {
+    let n = v.len();
+    let mut has_ties = false;
+    for i in 1..n {
+        if same(&v[i - 1], &v[i]) {
+            has_ties = true;
+            break;
+        }
+    }
+    if !has_ties {
+        return;
+    }
+    let region = next_region(n);
+    if choose(region, "unstable-sort-ties", 2) == 1 {
+        let mut lo = 0;
+        while lo < n {
+            let mut hi = lo + 1;
+            while hi < n && same(&v[hi - 1], &v[hi]) {
+                hi += 1;
+            }
+            v[lo..hi].reverse();
+            lo = hi;
+        }
+    }
+}
+
+/// Parallel sorts (stable ones are deterministic; unstable ones see `unstable_ties`) and mutable chunks.
+pub trait ParallelSliceMut<T: Send> {
+    fn as_parallel_slice_mut(&mut self) -> &mut [T];
+    fn par_sort(&mut self)
+    where
+        T: Ord,
+    {
+        self.as_parallel_slice_mut().sort()
+    }
+    fn par_sort_by<F: Fn(&T, &T) -> std::cmp::Ordering + Sync>(&mut self, f: F) {
+        self.as_parallel_slice_mut().sort_by(|a, b| f(a, b))
+    }
+    fn par_sort_by_key<K: Ord, F: Fn(&T) -> K + Sync>(&mut self, f: F) {
+        self.as_parallel_slice_mut().sort_by_key(|a| f(a))
+    }
+    fn par_sort_by_cached_key<K: Ord + Send, F: Fn(&T) -> K + Sync>(&mut self, f: F) {
+        self.as_parallel_slice_mut().sort_by_cached_key(|a| f(a))
+    }
+    fn par_sort_unstable(&mut self)
+    where
+        T: Ord,
+    {
+        let v = self.as_parallel_slice_mut();
+        v.sort();
+        unstable_ties(v, |a, b| a.cmp(b) == std::cmp::Ordering::Equal);
+    }
+    fn par_sort_unstable_by<F: Fn(&T, &T) -> std::cmp::Ordering + Sync>(&mut self, f: F) {
+        let v = self.as_parallel_slice_mut();
+        v.sort_by(|a, b| f(a, b));
+        unstable_ties(v, |a, b| f(a, b) == std::cmp::Ordering::Equal);
+    }
+    fn par_sort_unstable_by_key<K: Ord, F: Fn(&T) -> K + Sync>(&mut self, f: F) {
+        let v = self.as_parallel_slice_mut();
+        v.sort_by_key(|a| f(a));
+        unstable_ties(v, |a, b| f(a) == f(b));
+    }
+    fn par_chunks_mut<'a>(&'a mut self, size: usize) -> ParIter<'a, &'a mut [T]>
+    where
+        T: 'a,
+    {
+        ParIter::from_items(self.as_parallel_slice_mut().chunks_mut(size))
+    }
+    fn par_chunks_exact_mut<'a>(&'a mut self, size: usize) -> ParIter<'a, &'a mut [T]>
+    where
+        T: 'a,
+    {
+        ParIter::from_items(self.as_parallel_slice_mut().chunks_exact_mut(size))
+    }
+}
+
+impl<T: Send> ParallelSliceMut<T> for [T] {
+    fn as_parallel_slice_mut(&mut self) -> &mut [T] {
+        self
+    }
+}
+
+/// `par_extend`
+pub trait ParallelExtend<T: Send> {
+    fn par_extend<'a, I: IntoParallelIterator<'a, Item = T>>(&mut self, it: I)
+    where
+        T: 'a;
+}
+
+impl<T: Send> ParallelExtend<T> for Vec<T> {
+    fn par_extend<'a, I: IntoParallelIterator<'a, Item = T>>(&mut self, it: I)
+    where
+        T: 'a,
+    {
+        self.extend(it.into_par_iter().run_ordered());
+    }
+}
 
 impl<'a, T: Send + 'a> ParIter<'a, T> {
     fn from_items(items: impl Iterator<Item = T>) -> Self
@@ -648,6 +802,137 @@ impl<'a, T: Send + 'a> ParIter<'a, T> {
         self.run_ordered().into_iter().find(|x| f(x))
     }
 
+    // ---- further adaptors and consumers a realistic change may reach for (same model: per-item tasks, chunks) ----
+
+    /// Indexed adaptors: defined for iterators with exactly one item per task (rayon's indexed iterators).
+    pub fn rev(self) -> ParIter<'a, T> {
+        let mut tasks: Vec<Box<dyn FnOnce() -> Vec<T> + Send + 'a>> = self
+            .tasks
+            .into_iter()
+            .map(|t| {
+                Box::new(move || {
+                    let mut v = t();
+                    v.reverse();
+                    v
+                }) as Box<dyn FnOnce() -> Vec<T> + Send + 'a>
+            })
+            .collect();
+        tasks.reverse();
+        ParIter { tasks, ordered: self.ordered }
+    }
+
+    pub fn skip(mut self, n: usize) -> ParIter<'a, T> {
+        let n = n.min(self.tasks.len());
+        self.tasks.drain(..n);
+        self
+    }
+
+    pub fn take(mut self, n: usize) -> ParIter<'a, T> {
+        self.tasks.truncate(n);
+        self
+    }
+
+    pub fn step_by(self, step: usize) -> ParIter<'a, T> {
+        let ordered = self.ordered;
+        ParIter { tasks: self.tasks.into_iter().step_by(step.max(1)).collect(), ordered }
+    }
+
+    pub fn chain<Z: IntoParallelIterator<'a, Item = T>>(mut self, other: Z) -> ParIter<'a, T> {
+        let o = other.into_par_iter();
+        self.ordered = self.ordered && o.ordered;
+        self.tasks.extend(o.tasks);
+        self
+    }
+
+    pub fn inspect<F: Fn(&T) + Sync + Send + 'a>(self, f: F) -> ParIter<'a, T> {
+        self.map(move |x| {
+            f(&x);
+            x
+        })
+    }
+
+    pub fn update<F: Fn(&mut T) + Sync + Send + 'a>(self, f: F) -> ParIter<'a, T> {
+        self.map(move |mut x| {
+            f(&mut x);
+            x
+        })
+    }
+
+    /// `IndexedParallelIterator::chunks`: groups of `size` consecutive items.
+    pub fn chunks(self, size: usize) -> ParIter<'a, Vec<T>> {
+        let ordered = self.ordered;
+        let mut groups: Vec<Vec<Box<dyn FnOnce() -> Vec<T> + Send + 'a>>> = vec![];
+        for t in self.tasks {
+            if groups.last().map_or(true, |g| g.len() >= size.max(1)) {
+                groups.push(vec![]);
+            }
+            groups.last_mut().unwrap().push(t);
+        }
+        ParIter {
+            tasks: groups
+                .into_iter()
+                .map(|g| Box::new(move || vec![g.into_iter().flat_map(|t| t()).collect::<Vec<T>>()]) as Box<dyn FnOnce() -> Vec<Vec<T>> + Send + 'a>)
+                .collect(),
+            ordered,
+        }
+    }
+
+    /// Per-chunk clone of `init` (rayon: one clone per split).
+    pub fn map_with<S: Clone + Send + 'a, U: Send + 'a, F: Fn(&mut S, T) -> U + Sync + Send + 'a>(self, init: S, f: F) -> ParIter<'a, U> {
+        let init = Mutex::new(init);
+        self.map_init(move || init.lock().unwrap().clone(), f)
+    }
+
+    pub fn fold_with<A: Clone + Send + 'a, F: Fn(A, T) -> A + Sync + Send + 'a>(self, init: A, op: F) -> ParIter<'a, A> {
+        let init = Mutex::new(init);
+        self.fold(move || init.lock().unwrap().clone(), op)
+    }
+
+    pub fn min(self) -> Option<T>
+    where
+        T: Ord,
+    {
+        self.run_ordered().into_iter().min()
+    }
+
+    pub fn max(self) -> Option<T>
+    where
+        T: Ord,
+    {
+        self.run_ordered().into_iter().max()
+    }
+
+    pub fn min_by_key<K: Ord, F: Fn(&T) -> K + Sync + Send + 'a>(self, f: F) -> Option<T> {
+        self.run_ordered().into_iter().min_by_key(|x| f(x))
+    }
+
+    pub fn max_by_key<K: Ord, F: Fn(&T) -> K + Sync + Send + 'a>(self, f: F) -> Option<T> {
+        self.run_ordered().into_iter().max_by_key(|x| f(x))
+    }
+
+    /// The first error in completion order (rayon: any one of the errors).
+    pub fn try_for_each<E: Send + 'a, F: Fn(T) -> Result<(), E> + Sync + Send + 'a>(self, f: F) -> Result<(), E> {
+        for r in self.map(f).run_completion_order() {
+            r?;
+        }
+        Ok(())
+    }
+
+    /// `position_any`: the position (in index order) of the match that completes first.
+    pub fn position_any<F: Fn(T) -> bool + Sync + Send + 'a>(self, f: F) -> Option<usize> {
+        let hits: Vec<(usize, bool)> = self.enumerate().map(move |(i, x)| (i, f(x))).run_completion_order();
+        hits.into_iter().find(|h| h.1).map(|h| h.0)
+    }
+
+    pub fn position_first<F: Fn(T) -> bool + Sync + Send + 'a>(self, f: F) -> Option<usize> {
+        self.run_ordered().into_iter().position(f)
+    }
+
+    pub fn partition<A: FromParallelIterator<T>, B: FromParallelIterator<T>, P: Fn(&T) -> bool + Sync + Send + 'a>(self, pred: P) -> (A, B) {
+        let (a, b): (Vec<T>, Vec<T>) = self.run_ordered().into_iter().partition(|x| pred(x));
+        (A::from_ordered_vec(a), B::from_ordered_vec(b))
+    }
+
     pub fn unzip<A: Send, B: Send, CA: FromParallelIterator<A>, CB: FromParallelIterator<B>>(self) -> (CA, CB)
     where
         T: Into<(A, B)>,
@@ -826,6 +1111,40 @@ pub fn join<A: FnOnce() -> RA + Send, B: FnOnce() -> RB + Send, RA: Send, RB: Se
     }
 }
 
+/// `rayon::scope`: spawned jobs run before the scope returns, in any order, on any worker (jobs spawned by jobs
+/// included).
+pub struct Scope<'scope> {
+    #[allow(clippy::type_complexity)]
+    jobs: Mutex<Vec<Box<dyn FnOnce(&Scope<'scope>) + Send + 'scope>>>,
+}
+
+impl<'scope> Scope<'scope> {
+    pub fn spawn<F: FnOnce(&Scope<'scope>) + Send + 'scope>(&self, f: F) {
+        self.jobs.lock().unwrap().push(Box::new(f));
+    }
+}
+
+pub fn scope<'scope, R, F: FnOnce(&Scope<'scope>) -> R>(f: F) -> R {
+    let s = Scope { jobs: Mutex::new(vec![]) };
+    let r = f(&s);
+    loop {
+        let mut jobs = std::mem::take(&mut *s.jobs.lock().unwrap());
+        if jobs.is_empty() {
+            break;
+        }
+        let region = next_region(jobs.len());
+        let w = workers();
+        while !jobs.is_empty() {
+            let k = choose(region, "next-spawned", jobs.len());
+            let job = jobs.remove(k);
+            let worker = choose(region, "worker", w);
+            let sref = &s;
+            run_on_worker(worker, Box::new(move || job(sref)));
+        }
+    }
+    r
+}
+
 #[derive(Default)]
 pub struct ThreadPoolBuilder {
     n: usize,
@@ -863,5 +1182,58 @@ impl ThreadPoolBuilder {
 impl ThreadPool {
     pub fn install<R: Send, F: FnOnce() -> R + Send>(&self, f: F) -> R {
         f()
+    }
+}
+
+#[cfg(test)]
+mod tests {
+    use super::prelude::*;
+    use super::*;
+
+    #[test]
+    fn surface_and_model() {
+        // default schedule: everything behaves like the sequential iterator
+        let (r, log, _, div) = controlled(&[], 2, || {
+            let mut v: Vec<(u32, u32)> = (0..10u32).map(|i| (i % 3, i)).collect();
+            v.par_sort_unstable_by_key(|x| x.0);
+            let a: Vec<u32> = v.par_chunks(3).map(|c| c.iter().map(|x| x.1).sum::<u32>()).collect();
+            let mut w = vec![0u32; 6];
+            w.par_chunks_mut(2).enumerate().for_each(|(i, c)| c.iter_mut().for_each(|x| *x = i as u32));
+            let mut e: Vec<u32> = vec![];
+            e.par_extend((0..4u32).into_par_iter().rev().skip(1).take(2));
+            let out = Mutex::new(vec![]);
+            scope(|s| {
+                for i in 0..3 {
+                    let out = &out;
+                    s.spawn(move |_| out.lock().unwrap().push(i));
+                }
+            });
+            let m = (0..5usize).into_par_iter().map_with(0usize, |s, x| {
+                *s += 1;
+                x + *s
+            }).max();
+            (v, a, w, e, out.into_inner().unwrap(), m)
+        });
+        assert!(div.is_none());
+        assert_eq!(r.0.iter().map(|x| x.1).collect::<Vec<_>>(), vec![0, 3, 6, 9, 1, 4, 7, 2, 5, 8]);
+        assert_eq!(r.2, vec![0, 0, 1, 1, 2, 2]);
+        assert_eq!(r.3, vec![2, 1]);
+        assert_eq!(r.4, vec![0, 1, 2]);
+        assert_eq!(r.5, Some(9));
+        assert!(log.iter().any(|c| c.kind == "unstable-sort-ties"));
+        assert!(log.iter().any(|c| c.kind == "next-spawned"));
+        // one deviation: the unstable sort returns its ties in the other order
+        let pos = log.iter().position(|c| c.kind == "unstable-sort-ties").unwrap();
+        let mut prefix = vec![0; pos];
+        prefix.push(1);
+        let (r2, _, _, _) = controlled(&prefix, 2, || {
+            let mut v: Vec<(u32, u32)> = (0..10u32).map(|i| (i % 3, i)).collect();
+            v.par_sort_unstable_by_key(|x| x.0);
+            v
+        });
+        assert_eq!(r2.iter().map(|x| x.1).collect::<Vec<_>>(), vec![9, 6, 3, 0, 7, 4, 1, 8, 5, 2]);
+        // coarse alphabet: a region of 1000 items offers 7 cut points
+        let (_, log3, _, _) = controlled(&[], 2, || (0..1000usize).into_par_iter().map(|x| x).collect::<Vec<_>>());
+        assert_eq!(log3.iter().filter(|c| c.kind == "cut").count(), 7);
     }
 }
